@@ -106,6 +106,15 @@ func (c26) Generate(r *engine.Rand, index int, tier string) *engine.Scenario {
 		sc.Video = r.Bool()
 		sc.SetP("ctr", int64(r.U16()&^3))
 		sc.Cycles = uint64(r.Range(1, 3))*17556 + uint64(r.Intn(17556))
+		if index%128 == 0 {
+			// soak: hundreds (thorough: thousands) of frames, every party checked in every cycle
+			frames := 60
+			if tier == "thorough" {
+				frames = 1500
+			}
+			sc.Cycles = uint64(frames)*17556 + uint64(r.Intn(17556))
+			sc.SetP("soak", 1)
+		}
 		if r.Chance(1, 3) {
 			sc.Events = append(sc.Events, engine.Event{At: uint64(r.Intn(int(sc.Cycles))), K: "key", A: uint16(r.Intn(8)), V: 1})
 		}
